@@ -24,6 +24,7 @@ St0(k, l0) == LET l == IF k = "GC" THEN "No" ELSE l0 IN
 \* the two objects may be created with DIFFERENT layouts (what Swap has to exchange completely)
 St0x(k, l1, l2) == [o |-> <<Obj(k, l1, EmptyVal(k), 0), Obj(k, l2, EmptyVal(k), 0)>>, err |-> "none"]
 
+SelfOrder(v, how) == IF v = <<>> THEN v ELSE IF how = "rev" THEN Reverse(v) ELSE Tail(v) \o <<v[1]>>
 IsMulti(k) == k \in {"PG", "MPT", "MLS", "MPG", "GC"}
 
 RepOf(o) == Deflate(o.k, o.v)
@@ -82,6 +83,11 @@ Apply(st, a) ==
     [] a.op = "setcoords" -> [st EXCEPT !.o[a.to].v = a.v, !.o[a.to].spare = 0, !.err = "none"]
     [] a.op = "newflat" ->                                   \* obj := New<Kind>Flat(layout, Deflate(v)...): a NEW object (SRID 0)
          [st EXCEPT !.o[a.to] = [Obj(st.o[a.to].k, st.o[a.to].l, a.v, 0) EXCEPT !.spare = IF a.room THEN 2 ELSE 0], !.err = "none"]
+    \* SetCoords fed with the object's OWN coordinate views (Coord(i)) in another order: the value that was there, reordered
+    [] a.op = "setself" -> [st EXCEPT !.o[a.to].v = SelfOrder(@, a.how), !.o[a.to].spare = 0, !.err = "none"]
+    \* SetCoords on the part object an accessor handed out (LineString(i), LinearRing(i), Polygon(i), Point(i)): the part is an
+    \* object of its own for that purpose, the geometry it came from keeps its value
+    [] a.op = "setpart" -> [st EXCEPT !.err = "none"]
     [] a.op = "setbad" -> [st EXCEPT !.err = "stride"]       \* refused; the receiver's content afterwards is not prescribed (last step only)
     [] a.op = "setlayout" ->                                                   \* GC only
          LET o == st.o[a.to] IN
